@@ -153,6 +153,8 @@ def run(run, P):
             l = strip(t['l'])
             if not (isinstance(l, dict) and l.get('k') == 'mem' and l.get('rec') in src_fields and l['f'] in ROLES):
                 continue
+            if param_of(t['r']) is not None and expected.get((fn, param_of(t['r']))):
+                continue      # a parameter stored by its callee: judged at the call sites against the expected role
             r = role(t['r'], fn)
             if r is None:
                 continue
